@@ -33,7 +33,7 @@ def gen_case(rng, tier, idx):
     spec = gen_graph_spec(rng, big=rng.random() < 0.2)
     tb = rng.choice(('lifo', 'fifo', 'random', 'random'))
     rao = rng.random() < 0.6
-    cfg = dict(rep=rng.choice(REPS), heur=rng.choice(HEUR), tie=tb, rao=rao, seed=rng.choice((0, 1, 42)))
+    cfg = dict(rep=rng.choice(REPS), heur=rng.choice(HEUR), tie=tb, rao=rao, seed=rng.choice((0, 1, 42, None)))
     plain = idx % 4 == 0
     sched = gen_sched(rng, ('P',) if plain else ('U', 'X', 'X'), float_styles=('uniform', 'increasing', 'decreasing'),
                       budget_choices=(None,), coop=False)
